@@ -257,6 +257,53 @@ extern "C" void s_units_pointer()
     }
     END();
 }
+// moving units to another model: listed once by the new model, gone from the old one (the other units of the old model stay)
+extern "C" void s_move_units()
+{
+    auto m1 = Model::create("m");
+    auto m2 = Model::create("n");
+    auto u0 = Units::create(name2('u'));
+    auto u2 = Units::create(name2('u'));
+    m1->addUnits(u0);
+    m1->addUnits(u2);
+    DISTINCT(u0, u2);
+    bool ok = m2->addUnits(u2);
+    vcheck(ok && u2->parent() == m2 && m2->unitsCount() == 1 && m2->units(0) == u2, "moved units are listed once by their new model");
+    vcheck(m1->unitsCount() == 1 && m1->units(0) == u0 && u0->parent() == m1, "moved units leave exactly their old model");
+    END();
+}
+
+// replacing units by pointer: exactly the child that was passed is replaced, although the sibling may carry the same name;
+// a non-child that is not structurally equal to any child is refused even if it shares a child's name
+extern "C" void s_replace_units_pointer()
+{
+    auto m = Model::create("m");
+    auto a = Units::create(name2('u'));
+    auto b = Units::create(name2('u'));
+    auto x = Units::create(name2('u')); // never added, no unit child: structurally different from a and b
+    auto n = Units::create("n");
+    a->addUnit("metre");
+    b->addUnit("volt");
+    m->addUnits(a);
+    m->addUnits(b);
+    int k = vin(0, 2);
+    if (k == 0) {
+        bool ok = m->replaceUnits(b, n);
+        vcheck(ok && m->unitsCount() == 2 && m->units(0) == a && m->units(1) == n && n->parent() == m && b->parent() == nullptr && a->parent() == m,
+               "replacing units by pointer affects exactly the units passed");
+    } else if (k == 1) {
+        bool ok = m->replaceUnits(x, n);
+        NO_UNCAUGHT_AT("replaceUnits(non-child)");
+        vcheck(!ok && m->unitsCount() == 2 && m->units(0) == a && m->units(1) == b && a->parent() == m && b->parent() == m && n->parent() == nullptr,
+               "replacing units that are not in the model (and equal to none of its units) is refused and changes nothing");
+    } else {
+        bool ok = m->replaceUnits(UnitsPtr(), n);
+        NO_UNCAUGHT_AT("replaceUnits(null)");
+        vcheck(!ok && m->unitsCount() == 2 && n->parent() == nullptr, "replacing null units is refused and changes nothing");
+    }
+    END();
+}
+
 extern "C" void s_units_index()
 {
     auto m = Model::create("m");
